@@ -47,7 +47,7 @@ M = [
  ("c07-bitmap-len", "src/resultset.rs", "        let bitmap_len = (columns.len() + 7 + 2) / 8;", "        let bitmap_len = (columns.len() + 7) / 8 + if columns.len() % 8 == 0 { 1 } else { 0 };", ["C07"], "bitmap one byte short for 7 mod 8 columns"),
  ("c07-no-notnull-check", "src/resultset.rs", "                if c.colflags.contains(ColumnFlags::NOT_NULL_FLAG) {", "                if false && c.colflags.contains(ColumnFlags::NOT_NULL_FLAG) {", ["C07", "C03"], "NULL accepted for NOT NULL columns"),
  ("c07-f32-into-double", "src/value/encode.rs", "            ColumnType::MYSQL_TYPE_DOUBLE => w.write_f64::<LittleEndian>(f64::from(*self)),", "            ColumnType::MYSQL_TYPE_DOUBLE => w.write_f32::<LittleEndian>(*self),", ["C07"], "f32 bytes into a DOUBLE column"),
- ("c07-swap-month-day", "src/value/encode.rs", "                w.write_u8(4u8)?;\n                w.write_u16::<LittleEndian>(self.year() as u16)?;\n                w.write_u8(self.month() as u8)?;\n                w.write_u8(self.day() as u8)", "                w.write_u8(4u8)?;\n                w.write_u16::<LittleEndian>(self.year() as u16)?;\n                w.write_u8(self.day() as u8)?;\n                w.write_u8(self.month() as u8)", ["C07"], "DATE month/day swapped"),
+ ("c07-swap-month-day", "src/value/encode.rs", "                w.write_u8(4u8)?;\n                w.write_u16::<LittleEndian>(year)?;\n                w.write_u8(self.month() as u8)?;\n                w.write_u8(self.day() as u8)", "                w.write_u8(4u8)?;\n                w.write_u16::<LittleEndian>(year)?;\n                w.write_u8(self.day() as u8)?;\n                w.write_u8(self.month() as u8)", ["C07"], "DATE month/day swapped"),
  ("c07-ref-isnull-lost", "src/value/encode.rs", "    fn is_null(&self) -> bool {\n        (*self).is_null()\n    }", "", ["C07", "C03"], "NULL by reference not reported (F10 again)"),
  ("c07-time-days-dropped", "src/value/encode.rs", "                    w.write_u32::<LittleEndian>(d as u32)?;", "                    w.write_u32::<LittleEndian>(0u32)?;", ["C07"], "TIME days always 0"),
  # ---- C08 parameters
@@ -128,7 +128,7 @@ M = [
  ("keep-ok-hot-path-correct", "src/writers.rs", "    w.write_u8(0x00)?; // OK packet type\n    w.write_lenenc_int(rows)?;\n    w.write_lenenc_int(last_insert_id)?;", "    if rows < 0xfb && last_insert_id < 0xfb {\n        w.write_all(&[0x00, rows as u8, last_insert_id as u8])?;\n    } else {\n        w.write_u8(0x00)?; // OK packet type\n        w.write_lenenc_int(rows)?;\n        w.write_lenenc_int(last_insert_id)?;\n    }", [], "one-write hot path for small OK counters, with the right bound"),
  ("keep-coldef-scratch-correct", "src/writers.rs", "        w.write_lenenc_str(b\"def\")?;\n        w.write_lenenc_str(b\"\")?;\n        w.write_lenenc_str(c.table.as_bytes())?;", "        let mut head = Vec::new();\n        head.write_lenenc_str(b\"def\")?;\n        head.write_lenenc_str(b\"\")?;\n        head.write_lenenc_str(c.table.as_bytes())?;\n        w.write_all(&head)?;", [], "part of the column definition assembled in a scratch buffer and written with write_all"),
  ("keep-zero-len-time-by-total", "src/value/encode.rs", "                if self.as_secs() == 0 && us == 0 {", "                if *self == Duration::new(0, 0) || (self.as_secs() == 0 && us == 0) {", [], "equivalent zero test for the TIME zero-length form"),
- ("keep-datetime-shortest-form-correct", "src/value/encode.rs", "                if us != 0 {\n                    w.write_u8(11u8)?;\n                } else {\n                    w.write_u8(7u8)?;\n                }\n                w.write_u16::<LittleEndian>(self.year() as u16)?;\n                w.write_u8(self.month() as u8)?;\n                w.write_u8(self.day() as u8)?;\n                w.write_u8(self.hour() as u8)?;\n                w.write_u8(self.minute() as u8)?;\n                w.write_u8(self.second() as u8)?;", "                let date_only = us == 0 && self.num_seconds_from_midnight() == 0;\n                if us != 0 {\n                    w.write_u8(11u8)?;\n                } else if date_only {\n                    w.write_u8(4u8)?;\n                } else {\n                    w.write_u8(7u8)?;\n                }\n                w.write_u16::<LittleEndian>(self.year() as u16)?;\n                w.write_u8(self.month() as u8)?;\n                w.write_u8(self.day() as u8)?;\n                if date_only {\n                    return Ok(());\n                }\n                w.write_u8(self.hour() as u8)?;\n                w.write_u8(self.minute() as u8)?;\n                w.write_u8(self.second() as u8)?;", [], "binary DATETIME uses the legal 4-byte form for exact midnight (values unchanged)"),
+ ("keep-datetime-shortest-form-correct", "src/value/encode.rs", "                if us != 0 {\n                    w.write_u8(11u8)?;\n                } else {\n                    w.write_u8(7u8)?;\n                }\n                w.write_u16::<LittleEndian>(year)?;\n                w.write_u8(self.month() as u8)?;\n                w.write_u8(self.day() as u8)?;\n                w.write_u8(self.hour() as u8)?;\n                w.write_u8(self.minute() as u8)?;\n                w.write_u8(self.second() as u8)?;", "                let date_only = us == 0 && self.num_seconds_from_midnight() == 0;\n                if us != 0 {\n                    w.write_u8(11u8)?;\n                } else if date_only {\n                    w.write_u8(4u8)?;\n                } else {\n                    w.write_u8(7u8)?;\n                }\n                w.write_u16::<LittleEndian>(year)?;\n                w.write_u8(self.month() as u8)?;\n                w.write_u8(self.day() as u8)?;\n                if date_only {\n                    return Ok(());\n                }\n                w.write_u8(self.hour() as u8)?;\n                w.write_u8(self.minute() as u8)?;\n                w.write_u8(self.second() as u8)?;", [], "binary DATETIME uses the legal 4-byte form for exact midnight (values unchanged)"),
  ("c10-statement-table-recycled-per-thread", "src/lib.rs", "        let mut stmts: HashMap<u32, _> = HashMap::new();", "        struct Keep(HashMap<u32, StatementData>);\n        impl std::ops::Deref for Keep {\n            type Target = HashMap<u32, StatementData>;\n            fn deref(&self) -> &Self::Target {\n                &self.0\n            }\n        }\n        impl std::ops::DerefMut for Keep {\n            fn deref_mut(&mut self) -> &mut Self::Target {\n                &mut self.0\n            }\n        }\n        impl Drop for Keep {\n            fn drop(&mut self) {\n                let m = std::mem::take(&mut self.0);\n                SPARE_STMTS.with(|s| *s.borrow_mut() = Some(m));\n            }\n        }\n        thread_local! {\n            static SPARE_STMTS: std::cell::RefCell<Option<HashMap<u32, StatementData>>> = std::cell::RefCell::new(None);\n        }\n        let mut stmts = Keep(SPARE_STMTS.with(|s| s.borrow_mut().take()).unwrap_or_default());", ["C10"], "the statement table's allocation is recycled between the connections of a thread without being cleared: statements of an earlier connection are executable on the next (canary)"),
  ("keep-statement-table-recycled-cleared", "src/lib.rs", "        let mut stmts: HashMap<u32, _> = HashMap::new();", "        struct Keep(HashMap<u32, StatementData>);\n        impl std::ops::Deref for Keep {\n            type Target = HashMap<u32, StatementData>;\n            fn deref(&self) -> &Self::Target {\n                &self.0\n            }\n        }\n        impl std::ops::DerefMut for Keep {\n            fn deref_mut(&mut self) -> &mut Self::Target {\n                &mut self.0\n            }\n        }\n        impl Drop for Keep {\n            fn drop(&mut self) {\n                let mut m = std::mem::take(&mut self.0);\n                m.clear();\n                SPARE_STMTS.with(|s| *s.borrow_mut() = Some(m));\n            }\n        }\n        thread_local! {\n            static SPARE_STMTS: std::cell::RefCell<Option<HashMap<u32, StatementData>>> = std::cell::RefCell::new(None);\n        }\n        let mut stmts = Keep(SPARE_STMTS.with(|s| s.borrow_mut().take()).unwrap_or_default());", [], "the statement table's allocation is recycled between the connections of a thread, cleared first (the correct version)"),
  ("keep-poison-after-null-refusal", "src/resultset.rs", "                if c.colflags.contains(ColumnFlags::NOT_NULL_FLAG) {\n                    return Err(io::Error::new(", "                if c.colflags.contains(ColumnFlags::NOT_NULL_FLAG) {\n                    self.col = usize::MAX - 1;\n                    return Err(io::Error::new(", [], "a RowWriter that refused a NULL is unusable afterwards (every later call fails): no property promises that a row can be continued after a refusal"),
